@@ -116,6 +116,8 @@ pub fn plan(prop: &str, tier: Tier, cfg_b: bool) -> Option<Plan> {
             r.fail_pct = 30;
             r.intr_pct = 40;
             r.ready_pct = 30;
+            // cancellation: the director may drop the call midway (must not panic)
+            r.drop_pct = 8;
             wide_every = if q { 8000 } else { 40_000 };
         }
         "C05" => {
@@ -131,6 +133,8 @@ pub fn plan(prop: &str, tier: Tier, cfg_b: bool) -> Option<Plan> {
             g.write_pct = 25;
             r.limit_pct = 10;
             r.batch_pct = 10;
+            // only strategies that must not change the run (turned into IgnoreInterruptions below)
+            r.intr_pct = 12;
             exh_access = true;
         }
         "C07" => {
@@ -631,6 +635,11 @@ pub fn run(opts: &Opts, cfg_b: bool) -> Option<Stats> {
         };
         let n = gs.n;
         let mut rs = gen::random_run(&mut rng, n, &plan_ref.rprof, cfg_b);
+        if prop == "C06" && matches!(rs.intr, Intr::FinishCurrent | Intr::PollNextN(_)) {
+            // C06 speaks about runs without interruption: keep the channel and the signal, but
+            // with the strategy that must ignore it
+            rs.intr = Intr::Ignore;
+        }
         if mid {
             rs.batch = true;
             rs.greedy = rs.api.is_stream() && rng.chance(1, 2);
